@@ -77,12 +77,12 @@ func (c *vConn) Write(b []byte) (int, error) {
 	return len(b), nil
 }
 
-func (c *vConn) Close() error                       { c.closes++; return nil }
-func (c *vConn) LocalAddr() net.Addr                { return vAddr{} }
-func (c *vConn) RemoteAddr() net.Addr               { return vAddr{} }
-func (c *vConn) SetDeadline(time.Time) error        { return nil }
-func (c *vConn) SetReadDeadline(time.Time) error    { c.readDL++; return nil }
-func (c *vConn) SetWriteDeadline(time.Time) error   { c.writeDL++; return nil }
+func (c *vConn) Close() error                     { c.closes++; return nil }
+func (c *vConn) LocalAddr() net.Addr              { return vAddr{} }
+func (c *vConn) RemoteAddr() net.Addr             { return vAddr{} }
+func (c *vConn) SetDeadline(time.Time) error      { return nil }
+func (c *vConn) SetReadDeadline(time.Time) error  { c.readDL++; return nil }
+func (c *vConn) SetWriteDeadline(time.Time) error { c.writeDL++; return nil }
 
 type vAssocOpts struct {
 	mtu          uint32
